@@ -45,6 +45,8 @@ def base_events(x, n, dmin=0, data=None, ordered_nonoverlap=False):
 
 def val_eq(a, b):
     """logic equality of two data values (tags or lists of tags)"""
+    if a is None or b is None:
+        return a is None and b is None
     if isinstance(a, list) != isinstance(b, list):
         return False
     if isinstance(a, list):
@@ -55,16 +57,18 @@ def val_eq(a, b):
 
 
 def sym_data(x, n, nkeys, nvals, listvals):
-    """data dicts with a symbolic presence pattern over KEYS[:nkeys]; values are symbolic tags
-    (or, when listvals, possibly a list of tags).  An extra unrelated key is always present."""
+    """data dicts with a symbolic presence pattern over KEYS[:nkeys]; values are symbolic tags, an
+    explicit None (or, when listvals, possibly a list of tags).  An extra unrelated key is always present."""
     datas = []
     for i in range(n):
         d = {"other": "o%d" % i}
         for kk in KEYS[:nkeys]:
-            kind = x.choice("has_%s%d" % (kk, i), 3 if listvals else 2)
+            kind = x.choice("has_%s%d" % (kk, i), 4 if listvals else 3)
             if kind == 1:
                 d[kk] = x.wrap(x.zint("v_%s%d" % (kk, i), 0, nvals - 1))
             elif kind == 2:
+                d[kk] = None  # key present with an explicit null value
+            elif kind == 3:
                 ln = 1 + x.choice("len_%s%d" % (kk, i), 2)
                 d[kk] = [x.wrap(x.zint("v_%s%d_%d" % (kk, i, q), 0, nvals - 1)) for q in range(ln)]
         datas.append(d)
@@ -228,7 +232,7 @@ def harnesses(tier):
         sorts = [3, 4]
         filt = [3]
     else:
-        merges = [(2, 2, False, 120), (3, 2, False, 300), (4, 2, False, 1800), (3, 3, False, 1800), (2, 2, True, 300), (3, 2, True, 1800), (2, 3, True, 1800)]
+        merges = [(2, 2, False, 120), (3, 2, False, 300), (4, 2, False, 1800), (3, 3, False, 1800), (2, 2, True, 300), (3, 2, True, 1800)]
         chunks = [(3, True), (4, True), (5, True), (6, True), (3, False), (4, False), (5, False)]
         sorts = [3, 4, 5]
         filt = [3, 4, 5]
